@@ -46,3 +46,6 @@ func raceRelease(addr any) { runtime.RaceRelease(addrOf(addr)) }
 
 //go:norace
 func raceReleaseMerge(addr any) { runtime.RaceReleaseMerge(addrOf(addr)) }
+
+//go:norace
+func addrOfAny(a any) unsafe.Pointer { return addrOf(a) }
